@@ -376,3 +376,61 @@ Lemma flag_kept_examples_l :
   step_table (fun _ => ["k"; "a"]) (fun _ => 0) (fst (process_request 3 wit_env_index ["a"; "k"])) 0 = ["k"; "a"] /\
   step_table (fun _ => ["k"; "a"]) (fun _ => 0) (fst (process_request 3 wit_env_index ["k"; "a"])) 0 = ["k"; "a"].
 Proof. vm_compute. repeat split. Qed.
+
+(* ---------- execution modes ---------- *)
+Require Import MV.Model.Modes.
+From Coq Require Import Permutation.
+
+Lemma seen_cols_perm : forall m m' held transferred s, Permutation (transferred s) (held s) ->
+  Permutation (seen_cols m held transferred s) (seen_cols m' held transferred s).
+Proof.
+  intros m m' held transferred s P. unfold seen_cols.
+  destruct (transfers m), (transfers m'); auto using Permutation_refl, Permutation_sym.
+Qed.
+
+Lemma seen_cols_in : forall m held transferred s c, Permutation (transferred s) (held s) ->
+  (In c (seen_cols m held transferred s) <-> In c (held s)).
+Proof.
+  intros m held transferred s c P. unfold seen_cols. destruct (transfers m); [|tauto].
+  split; intro H; [eapply Permutation_in; [exact P | exact H] | eapply Permutation_in; [apply Permutation_sym; exact P | exact H]].
+Qed.
+
+(* exactly the requested columns, in every mode: the transfer through the Flight store may reorder the columns but keeps
+   the column set; the selection then returns exactly the columns HELD where the step ran that a requested feature owns *)
+Lemma exact_any_mode_l : forall (order req : list feature),
+  (forall r, In r req -> fflag r = true /\ In r order) ->
+  (forall g, In g order -> fflag g = true -> In g req) ->
+  forall (step : feature -> nat) (held transferred : nat -> list string),
+  (forall a b, feq a b = true -> step a = step b) ->
+  (forall s, Permutation (transferred s) (held s)) ->
+  forall m s c,
+    In c (step_table_in m held transferred step (collect order) s) <->
+    In c (held s) /\ exists r, In r req /\ step r = s /\ owner (fname r) c.
+Proof.
+  intros order req H1 H2 step held transferred Hs HP m s c. unfold step_table_in.
+  rewrite (exact_l order req H1 H2 step (seen_cols m held transferred) Hs s c).
+  rewrite (seen_cols_in m held transferred s c (HP s)). tauto.
+Qed.
+
+(* the returned columns of a step do not depend on the mode: same set with ordering None, the very same list with
+   'alphabetical' and with 'request_order' (for one iteration order `iter` of the requested names) *)
+Lemma result_mode_independent_l : forall m m' iter held transferred o s,
+  Permutation (transferred s) (held s) ->
+  match identify iter (seen_cols m held transferred s) o, identify iter (seen_cols m' held transferred s) o with
+  | RErr, RErr => True
+  | RSet a, RSet b => Permutation a b
+  | RList a, RList b => a = b
+  | _, _ => False
+  end.
+Proof.
+  intros m m' iter held transferred o s P. apply MV.Proofs.NamingP.identify_cols_perm_l.
+  apply seen_cols_perm. exact P.
+Qed.
+
+Lemma step_table_mode_independent_l : forall m m' held transferred step coll s,
+  Permutation (transferred s) (held s) ->
+  Permutation (step_table_in m held transferred step coll s) (step_table_in m' held transferred step coll s).
+Proof.
+  intros m m' held transferred step coll s P. unfold step_table_in, step_table.
+  apply MV.Proofs.NamingP.select_perm. apply seen_cols_perm. exact P.
+Qed.
